@@ -97,6 +97,9 @@ fn file_line() -> BoxedStrategy<Vec<u8>> {
         3 => prop::collection::vec(interesting_byte(), 2..=2),
         6 => prop::collection::vec(interesting_byte(), 3..40),
         3 => prop::sample::select(vec!["bin/foo", "man/man1/foo.1", "a", "b", "+INSTALL", "share/doc/x y", " leading", "\tx", "lib/libfoo.so.1.0"]).prop_map(|s| s.as_bytes().to_vec()),
+        // lines made only of multi-byte Unicode white space are file names like any other
+        1 => prop::sample::select(vec!["\u{3000}", "\u{a0}", "\u{2003}\u{2003}", "\u{2028}", "\u{85}", " \u{a0}", "\u{feff}"]).prop_map(|s| s.as_bytes().to_vec()),
+        1 => prop::collection::vec(interesting_byte(), 100..600),
     ]
     .prop_map(|mut v| {
         // a file line is any line not starting with '@'
@@ -171,8 +174,10 @@ fn doc_strategy(tier: Tier) -> BoxedStrategy<DocCase> {
     let max = tier.pick(20, 30);
     // mostly error-free documents (so that the entry list is compared), sometimes error-prone
     let lines = prop_oneof![
-        4 => prop::collection::vec(line(0), 0..=max),
-        1 => prop::collection::vec(line(12), 0..=max),
+        40 => prop::collection::vec(line(0), 0..=max),
+        10 => prop::collection::vec(line(12), 0..=max),
+        // one document in fifty is long
+        1 => prop::collection::vec(line(0), 100..400),
     ];
     (lines, any::<bool>())
         .prop_map(|(ls, nl)| DocCase { lines: ls.into_iter().map(B).collect(), final_newline: nl })
